@@ -31,6 +31,15 @@ class CountingLJ(CountingMixin, LennardJones):
     style = "internal"
 
 
+def _species_field(atoms, z, e, f):
+    """E += z sum_i Z_i sin(0.37 (x_i + y_i + z_i)): two atoms of different species that change places change the energy"""
+    u = 0.37 * atoms.positions.sum(axis=1)
+    zz = atoms.numbers.astype(float)
+    e = e + z * float((zz * np.sin(u)).sum())
+    f = f - (z * 0.37 * zz * np.cos(u))[:, None]
+    return e, f
+
+
 class Harmonic(Calculator):
     """E = k/2 sum |r_i - r0_i|^2 for the first len(r0) atoms, plus eps per extra atom
     and a cell term; no internal state beyond the standard results cache."""
@@ -38,8 +47,9 @@ class Harmonic(Calculator):
     implemented_properties = ("energy", "forces")
     style = "caching"
 
-    def __init__(self, k=1.0, centers=None, eps=0.05, cellk=0.0, **kw):
+    def __init__(self, k=1.0, centers=None, eps=0.05, cellk=0.0, zterm=0.0, **kw):
         super().__init__(**kw)
+        self.zterm = zterm   # species-dependent field: E depends on WHICH atom sits where (0: species-blind)
         self.k = k
         self.centers = None if centers is None else np.array(centers, float)
         self.eps = eps
@@ -62,6 +72,8 @@ class Harmonic(Calculator):
         e += float(self.eps * np.sin(extra).sum()) + self.eps * (n - m)
         f[m:] = -self.eps * np.cos(extra)
         e += self.cellk * float(self.atoms.cell.volume)
+        if self.zterm:
+            e, f = _species_field(self.atoms, self.zterm, e, f)
         self.results = {"energy": e, "forces": f}
 
 
@@ -72,8 +84,9 @@ class PairRebuild(Calculator):
     implemented_properties = ("energy", "forces")
     style = "rebuild"
 
-    def __init__(self, a=1.0, rc=3.0, **kw):
+    def __init__(self, a=1.0, rc=3.0, zterm=0.0, **kw):
         super().__init__(**kw)
+        self.zterm = zterm
         self.a = a
         self.rc = rc
         self.ncalc = 0
@@ -101,6 +114,8 @@ class PairRebuild(Calculator):
         # weak external field: makes the energy a non-degenerate function of the configuration
         e += 0.02 * float(np.sin(at.positions * 0.7).sum())
         f -= 0.02 * 0.7 * np.cos(at.positions * 0.7)
+        if self.zterm:
+            e, f = _species_field(at, self.zterm, e, f)
         self.results = {"energy": e, "forces": f}
 
 
@@ -163,9 +178,9 @@ def fresh_like(calc):
     if isinstance(calc, CountingLJ):
         return LennardJones(**{k: v for k, v in calc.parameters.items()})
     if isinstance(calc, Harmonic):
-        return Harmonic(calc.k, calc.centers, calc.eps, calc.cellk)
+        return Harmonic(calc.k, calc.centers, calc.eps, calc.cellk, zterm=calc.zterm)
     if isinstance(calc, PairRebuild):
-        return PairRebuild(calc.a, calc.rc)
+        return PairRebuild(calc.a, calc.rc, zterm=calc.zterm)
     if isinstance(calc, TableCalc):
         c = TableCalc()
         c.table = calc.table  # shared table: the function E(configuration) itself
